@@ -8,7 +8,7 @@ FUNCTIONS = ["Traph.create_webentity", "Traph.delete_webentity", "Traph.add_pref
              "Traph.retrieve_prefix", "Traph.get_webentity_by_prefix", "Traph.webentity_prefix_iter", "LRUTrie.follow_lru"]
 REQUIRED = ["resolve:webentity", "resolve:prefix", "resolve:error-iff-none", "by_prefix", "prefix_iter:count",
             "add_prefix:refusal", "create_webentity:refusal", "reach:op:we", "reach:op:delwe", "reach:op:addprefix",
-            "reach:op:rmprefix", "reach:op:moveprefix", "reach:query:extension", "reach:query:fresh", "reach:nested"]
+            "reach:op:rmprefix", "reach:op:moveprefix", "reach:op:delbad", "reach:op:deldup", "reach:query:extension", "reach:query:fresh", "reach:nested"]
 OUTSIDE = ["more than 3 pool LRUs of at most 3 stems, more than 4 edits", "automatic creations are exercised in C06 (typed LRUs, rule family)"]
 
 
@@ -18,9 +18,13 @@ def levels(tier):
         return [
             {"name": "n2", "shapes": [[1, 2, 3]], "n": 2, "alphabet": edits},
             {"name": "n3", "shapes": [[1, 2, 2]], "n": 3, "alphabet": ["we", "delwe", "addprefix", "rmprefix", "moveprefix"]},
+            {"name": "refused", "shapes": [[1, 2, 2]], "n": 2, "prelude": [["we", [[1, 1], [2, 2]]]],
+             "alphabet": ["we", "addprefix", "delbad", "deldup", "rmforeign"]},
         ]
     return [
-        {"name": "n2", "shapes": [[1, 2, 3], [2, 2, 3]], "n": 2, "alphabet": edits + ["rmforeign"], "we_two_prefixes": True},
+        {"name": "n2", "shapes": [[1, 2, 3], [2, 2, 3]], "n": 2, "alphabet": edits + ["rmforeign", "delbad", "deldup"], "we_two_prefixes": True},
+        {"name": "refused", "shapes": [[1, 2, 3]], "n": 3, "prelude": [["we", [[1, 1], [2, 2]]]],
+         "alphabet": ["we", "addprefix", "delbad", "deldup", "rmforeign", "delwe"]},
         {"name": "n3", "shapes": [[1, 2, 3]], "n": 3, "alphabet": edits},
         {"name": "n4", "shapes": [[1, 2, 2]], "n": 4, "alphabet": ["we", "delwe", "addprefix", "rmprefix", "moveprefix"]},
     ]
@@ -72,6 +76,7 @@ def harness(E):
     t = E.Traph(folder=None, default_webentity_creation_rule=NEVER, webentity_creation_rules={})
     ref = Ref()
     h = History(E, t, ref, pool, P["alphabet"], P)
+    h.prelude(P.get("prelude"))
     for i in range(P["n"]):
         kind, info = h.step(i)
         if kind == "we":
